@@ -64,16 +64,21 @@ pub struct StubLexer {
 }
 
 impl StubLexer {
-    /// `toks[i]` is placed after `gaps[i]` filler bytes; every lexeme is one byte long.
-    pub fn new(toks: &[u16], gaps: &[u8]) -> Self {
+    /// `toks[i]` is placed after `gaps[i]` filler bytes; a lexeme is one byte long, or zero bytes
+    /// if `zero[i]` (a real, non-faulty zero-width lexeme, as an INDENT/DEDENT lexer produces).
+    pub fn new(toks: &[u16], gaps: &[u8], zero: &[bool]) -> Self {
         let mut text = String::new();
         let mut lexemes = Vec::with_capacity(toks.len());
         for (i, t) in toks.iter().enumerate() {
             for _ in 0..gaps.get(i).copied().unwrap_or(0) {
                 text.push(' ');
             }
-            lexemes.push(Lx::new(*t, text.len(), 1));
-            text.push((b'a' + (*t % 26) as u8) as char);
+            if zero.get(i).copied().unwrap_or(false) {
+                lexemes.push(Lx::new(*t, text.len(), 0));
+            } else {
+                lexemes.push(Lx::new(*t, text.len(), 1));
+                text.push((b'a' + (*t % 26) as u8) as char);
+            }
         }
         StubLexer { lexemes, text }
     }
